@@ -229,9 +229,8 @@ def ch_emsg(ctx):
                     on_boundary = True
         if on_boundary:
             ch.count("event exactly on a segment start")
-        if len(c["run"]) >= 2 and c["run"][-1][0] // max(1, sum(d for _, d in c["run"])) != \
-                c["run"][0][0] // max(1, sum(d for _, d in c["run"])):
-            pass
+        if c.get("crosses_loop"):
+            ch.count("run crosses a loop of the source")
         if nboxes and len(c["run"]) >= 2:
             ch.nontrivial.add(json.dumps(_json_case(c), sort_keys=True))
         fails = emsg_oracle_on_real(c)
